@@ -6,7 +6,10 @@
   of the items before it — all sizes are final by then, `assemble_layout`) and against ONE label
   table, the one the walk started with and ended with (no label moves: n = 0), which
   `assemble_layout` proves to be the table of final byte offsets.  `offset_value`, `position_value`,
-  `bare_label_value` then read off the three modifiers.
+  `hi_value` / `lo_value` then read off the modifiers.  A BARE label `L` is no modifier: it is the
+  arithmetic text `L`, handed to `H.arith`; that its value is `env L` is `C11.eval_name` at the level
+  of syntax trees, and holds for the text evaluator on each concrete name by evaluation (e.g.
+  `C11.k16`); there is no general theorem `evalArith L env = env L` for every identifier `L` here.
 -/
 import BB.Lemmas.Final
 namespace BB.Props.C08
